@@ -34,7 +34,8 @@ ASSUMPTIONS = ["SimFS resolves paths component-wise like a POSIX kernel and has 
                "removals are logged but not judged: the statement is about what the command creates",
                "every minimised violation is re-run once against the real file system in a deep scratch directory"]
 
-SEGS_BAD = ["..", ".", "", "~", "b x", "c\\d", "\x01z", "CON", "é", "x" * 260, "..", "...", " ", "a.", "-rf"]
+SEGS_BAD = ["..", ".", "", "~", "b x", "c\\d", "\x01z", "CON", "é", "x" * 260, "..", "...", " ", "a.", "-rf",
+            "\u2025", "\uff0e\uff0e", "\u2024\u2024", "a\uff0fb", "\uff0e", "\u2025\uff0f\u2025"]   # look-alikes of '..', '.', '/' (NFKC)
 SEGS_OK = ["a", "b", "pkg", "Cls", "q"]
 METH_BAD = ["../x", "a/../../x", "x/../../../../esc", "/abs", "..", "a/b", "CON", "m" * 300, "x\\..\\y", "a\x00b", ".", ""]
 METH_OK = ["m", "run", "<init>", "get"]
@@ -97,7 +98,12 @@ def draw_case(seed):
     if fr.random() < 0.35:
         for _ in range(fr.randint(1, 2)):
             faults.append([fr.randint(1, 30), fr.choice(["ENOSPC", "EACCES", "EEXIST"])])
-    return {"seed": seed, "model": model, "env": env, "faults": faults}
+    priors = []
+    if er.random() < 0.2:
+        # history: an earlier export in the same process (same class names, another output directory)
+        priors.append({"output": er.choice([o for o in OUTPUTS if o.rstrip("/").lstrip("./") != env["output"].rstrip("/").lstrip("./")]),
+                       "model": "same" if er.random() < 0.8 else "twin"})
+    return {"seed": seed, "model": model, "env": env, "faults": faults, "priors": priors}
 
 
 # --------------------------------------------------------------------------
@@ -121,9 +127,12 @@ def _modules():
     return _MODS
 
 
-class _NoShutil:
+class _SimShutil:
+    def __init__(self, fs):
+        self.move, self.copy, self.copy2, self.copyfile, self.rmtree = fs.move, fs.copyfile, fs.copyfile, fs.copyfile, fs.rmtree
+
     def __getattr__(self, name):
-        raise AttributeError("shutil is not simulated (jar export is not driven)")
+        raise AttributeError("shutil.%s is not simulated" % name)
 
 
 def install(fs, answers):
@@ -139,7 +148,7 @@ def install(fs, answers):
             m.os = simos
         m.open = fs.open
         if _REAL[m]["shutil"] is not None:
-            m.shutil = _NoShutil()
+            m.shutil = _SimShutil(fs)
         m.input = sim_input
 
 
@@ -162,8 +171,37 @@ def _load_session(raw):
     return s
 
 
+def _export_once(fs, session, output, filt, form):
+    import androguard.cli.main as M
+    err = None
+    try:
+        M.export_apps_to_format("x.dex", session, output, filt, False, None, form)
+    except HarnessError:
+        raise
+    except BaseException as e:   # noqa  -- the command may abort (EOF on stdin, injected error, bad name): allowed
+        if isinstance(e, (KeyboardInterrupt, SystemExit)):
+            raise
+        err = e
+    return err
+
+
+_SANDBOX = [None]
+
+
+def _real_sandbox():
+    """A real, empty directory that is the process's cwd while the command runs: anything the code under test writes
+    through an API the seam does not cover (pathlib, os.open, ...) lands here, is found afterwards and is judged too."""
+    if _SANDBOX[0] is None:
+        root = "/dev/shm" if os.path.isdir("/dev/shm") else "/var/tmp"
+        _SANDBOX[0] = os.path.join(root, "verif-c37-cwd-%d" % os.getpid())
+    d = _SANDBOX[0]
+    shutil.rmtree(d, ignore_errors=True)
+    os.makedirs(os.path.join(d, "cwd"))
+    return d
+
+
 def run_export(case, fs, precreate=()):
-    """-> (exception or None).  Runs the real exporter against fs."""
+    """-> (error of the judged export, [(events, out_abs, tag)]).  Runs the real exporter against fs."""
     from gen import dexasm
     raw, _ = dexasm.assemble(case["model"])
     _modules()
@@ -179,83 +217,123 @@ def run_export(case, fs, precreate=()):
                 d[comps[-1]] = fssim.SimFile()
     fs.events.clear()
     fs.calls = 0
-    fs.fault_plan = {int(i): k for i, k in case["faults"]}
-    install(fs, env["answers"])
-    import androguard.cli.main as M
-    err = None
+    fs.fault_plan = {}
+    segments = []
+    sandbox = _real_sandbox()
+    old_cwd = os.getcwd()
     saved = sys.stdout
     sys.stdout = _DEVNULL
+    undo = fssim.patch_tempfile_and_shutil(fs)
+    os.chdir(os.path.join(sandbox, "cwd"))
+    err = None
     try:
-        M.export_apps_to_format("x.dex", s, env["output"], env["filter"], False, None, env["form"])
-    except HarnessError:
-        raise
-    except BaseException as e:   # noqa  -- the command may abort (EOF on stdin, injected error, bad name): allowed
-        if isinstance(e, (KeyboardInterrupt, SystemExit)):
-            raise
-        err = e
+        for prior in case.get("priors") or []:
+            if prior["model"] == "same":
+                s0 = s
+            elif prior["model"] == "twin":
+                s0 = _load_session(dexasm.assemble(_benign_twin(case["model"]))[0])
+            else:
+                s0 = _load_session(dexasm.assemble(prior["model"])[0])
+            install(fs, ["y", "y"])
+            _export_once(fs, s0, prior["output"], None, None)
+            p_abs = posixpath.normpath(posixpath.join(fs.cwd, prior["output"]))
+            segments.append((list(fs.events), p_abs, "prior"))
+            fs.events.clear()
+            fs.calls = 0
+        fs.fault_plan = {int(i): k for i, k in case["faults"]}
+        install(fs, env["answers"])
+        err = _export_once(fs, s, env["output"], env["filter"], env["form"])
+        segments.append((list(fs.events), out_abs, "main"))
     finally:
+        os.chdir(old_cwd)
+        undo()
         sys.stdout = saved
         uninstall()
-    return err, out_abs
+    # anything written to the real file system bypassed the seam: map it into the simulated name space and judge it too
+    stray = []
+    for dp, dn, fn in os.walk(sandbox):
+        for f in fn:
+            stray.append(("create", posixpath.normpath(posixpath.join(fs.cwd, os.path.relpath(os.path.join(dp, f), os.path.join(sandbox, "cwd"))))))
+        for dd in dn:
+            p = os.path.join(dp, dd)
+            if p != os.path.join(sandbox, "cwd"):
+                stray.append(("mkdir", posixpath.normpath(posixpath.join(fs.cwd, os.path.relpath(p, os.path.join(sandbox, "cwd"))))))
+    shutil.rmtree(sandbox, ignore_errors=True)
+    if stray:
+        segments.append((stray, out_abs, "seam-bypassed"))
+    return err, segments
+
+
+def _benign_twin(model):
+    """same class names, one harmless method each"""
+    return {"classes": [dict(c, dmethods=[{"name": "m", "ret": "V", "params": [], "access": 9,
+                                           "code": {"regs": 1, "insns": [["return-void"]], "tries": []}}]) for c in model["classes"]],
+            "strings_extra": []}
 
 
 def _inside(p, out_abs):
     return p == out_abs or p.startswith(out_abs.rstrip("/") + "/")
 
 
-def judge(case, fs, out_abs):
+def judge(case, segments):
     problems = {}
     created = 0
     names_m = [m["name"] for c in case["model"]["classes"] for m in c["dmethods"]]
-    for kind, p in fs.events:
-        if kind in ("remove", "rmdir"):
-            continue
-        created += 1
-        if _inside(p, out_abs):
-            continue
-        if kind == "mkdir" and out_abs.startswith(p.rstrip("/") + "/"):
-            continue      # an ancestor of the requested output directory (os.makedirs(output)): not derived from the input
-        if kind == "mkdir":
-            site = "makedirs"
-        elif p.endswith(".java"):
-            site = "open-java"
-        elif p.endswith(".ag"):
-            site = "open-ag"
-        else:
-            site = "open-graph"
-        if site in ("open-ag", "open-graph") and any("/" in n for n in names_m):
-            cause = "method-name"
-        elif any(".." in c["desc"].split("/") or ".." in c["desc"][1:-1].split("/") for c in case["model"]["classes"]):
-            cause = "dotdot"
-        else:
-            cause = "other"
-        sig = f"C37:escape:{site}:{cause}"
-        problems.setdefault(sig, f"{kind} {p!r} lies outside the output directory {out_abs!r}")
+    for events, out_abs, tag in segments:
+        for kind, p in events:
+            if kind in ("remove", "rmdir"):
+                continue
+            created += 1
+            if _inside(p, out_abs):
+                continue
+            if kind == "mkdir" and out_abs.startswith(p.rstrip("/") + "/"):
+                continue      # an ancestor of the requested output directory (os.makedirs(output)): not derived from the input
+            if kind == "mkdir":
+                site = "makedirs"
+            elif p.endswith(".java"):
+                site = "open-java"
+            elif p.endswith(".ag"):
+                site = "open-ag"
+            else:
+                site = "open-other"
+            if tag == "seam-bypassed":
+                cause = "unseamed-api"
+            elif p.startswith(fssim.SimFS.tmpdir + "/") or p == fssim.SimFS.tmpdir:
+                cause = "temp-directory"
+            elif case.get("priors") and tag == "main" and any(_inside(p, o) for _, o, t in segments if t == "prior"):
+                cause = "earlier-export-in-process"
+            elif site in ("open-ag", "open-other") and any("/" in n for n in names_m):
+                cause = "method-name"
+            elif any(".." in c["desc"].split("/") or ".." in c["desc"][1:-1].split("/") for c in case["model"]["classes"]):
+                cause = "dotdot"
+            else:
+                cause = "other"
+            sig = f"C37:escape:{site}:{cause}"
+            problems.setdefault(sig, f"{kind} {p!r} lies outside the output directory {out_abs!r} ({tag} export)")
     return problems, created
 
 
-def execute(case):
+def _execute_inproc(case):
     core.use_repo()
     fs = fssim.SimFS()
     precreate = []
     if case["env"]["preexisting"] and case["env"]["pre_files"]:
         # dry run on an empty file system to learn which files the command would create, then pre-create some of them
         fs0 = fssim.SimFS()
-        dry = dict(case, faults=[], env=dict(case["env"], preexisting=False))
-        try:
-            run_export(dry, fs0)
-        except HarnessError:
-            raise
-        files = [p for k, p in fs0.events if k == "create"]
+        dry = dict(case, faults=[], priors=[], env=dict(case["env"], preexisting=False))
+        _, segs0 = run_export(dry, fs0)
+        files = [p for evs, _, tag in segs0 if tag == "main" for k, p in evs if k == "create"]
         pr = core.rng(case["seed"], "precreate")
         pr.shuffle(files)
         precreate = files[:case["env"]["pre_files"]]
-    err, out_abs = run_export(case, fs, precreate)
-    problems, created = judge(case, fs, out_abs)
+    err, segments = run_export(case, fs, precreate)
+    problems, created = judge(case, segments)
     log = core.EventLog()
-    log.add("env", "setup", [case["env"], case["faults"], sorted(precreate)])
-    for ev in fs.events:
-        log.add("fs", ev[0], ev[1])
+    log.add("env", "setup", [case["env"], case["faults"], [[p["output"], p["model"] if isinstance(p["model"], str) else "explicit"]
+                                                           for p in case.get("priors") or []], sorted(precreate)])
+    for evs, out_abs, tag in segments:
+        for ev in evs:
+            log.add(tag, ev[0], ev[1])
     log.add("cmd", "end", type(err).__name__ if err else "ok")
     bad = any(_has_bad(c["desc"]) for c in case["model"]["classes"]) or \
         any(("/" in m["name"] or m["name"] in ("..", ".", "") or len(m["name"]) > 255 or "\\" in m["name"] or "\x00" in m["name"])
@@ -267,31 +345,105 @@ def execute(case):
         probes["pre-existing-colliding-files"] = 1
     if case["env"]["preexisting"]:
         probes["clean-directory-prompt-reached"] = 1
+    if case.get("priors"):
+        probes["earlier-export-in-same-process"] = 1
+    if any(tag == "seam-bypassed" for _, _, tag in segments):
+        probes["file-created-through-an-api-outside-the-seam"] = 1
     if err is not None:
         probes["command-raised:" + type(err).__name__] = 1
     faults = {}
     for _, k, _op in fs.fired:
         faults[k] = faults.get(k, 0) + 1
+    nev = sum(len(e) for e, _, _ in segments)
     return {"problems": sorted(problems.items()), "digest": log.digest(), "probes": probes, "faults": faults,
-            "units": len(fs.events), "nontrivial": bool(bad and created), "log": log.events,
+            "units": nev, "nontrivial": bool(bad and created), "log": log.events,
             "extra": {"files_and_dirs_created": created}}
+
+
+def execute(case, isolated=True):
+    """isolated=True: the case runs in its own forked process, so that module-level state of the code under test (caches,
+    counters) left by other cases cannot influence it and a history inside the case (earlier exports) is explicit and
+    replayable.  The bulk search runs cases in-process (forking is very expensive in this sandbox) and confirms every
+    violation in isolation (see worker)."""
+    if not isolated:
+        return _execute_inproc(case)
+    import pickle
+    core.use_repo()
+    _modules()
+    import androguard.session  # noqa  (pre-import before fork)
+    r, w = os.pipe()
+    pid = os.fork()
+    if pid == 0:
+        code = 0
+        try:
+            os.close(r)
+            try:
+                out = ("ok", _execute_inproc(case))
+            except HarnessError as e:
+                out = ("harness", str(e))
+            except BaseException as e:  # noqa
+                import traceback
+                out = ("harness", "unexpected: " + traceback.format_exc()[-800:])
+            with os.fdopen(w, "wb") as f:
+                pickle.dump(out, f, protocol=4)
+        except BaseException:  # noqa
+            code = 3
+        finally:
+            os._exit(code)
+    os.close(w)
+    with os.fdopen(r, "rb") as f:
+        data = f.read()
+    _, status = os.waitpid(pid, 0)
+    if status != 0 or not data:
+        raise HarnessError(f"C37 case process died (status {status})")
+    kind, out = pickle.loads(data)
+    if kind != "ok":
+        raise HarnessError(out)
+    return out
+
+
+_RECENT = []          # the cases this worker process ran before (only their model / output: the history of the process)
 
 
 def worker(seed):
     case = draw_case(seed)
-    out = execute(case)
+    out = execute(case, isolated=False)
     log = out.pop("log")
+    if out["problems"]:
+        # confirm in a fresh process; if the violation needs what earlier cases left behind in this process, make that
+        # history explicit (earlier exports become `priors` of the case) so that the replay file is self-contained
+        want = {s for s, _ in out["problems"]}
+        confirmed = None
+        for depth in (0, 1, 2, 4, 8):
+            hist = [{"output": c["env"]["output"], "model": c["model"]} for c in _RECENT[-depth:]] if depth else []
+            c2 = dict(case, priors=hist + list(case["priors"]))
+            o2 = execute(c2, isolated=True)
+            if want & {s for s, _ in o2["problems"]}:
+                confirmed = (c2, o2)
+                break
+            if depth >= len(_RECENT):
+                break
+        if confirmed is None:
+            raise HarnessError(f"C37 seed {seed}: violation {sorted(want)} seen in the worker process did not reproduce in a fresh "
+                               f"process, not even with the last {min(8, len(_RECENT))} exports of that worker as explicit history")
+        case, o2 = confirmed
+        o2.pop("log", None)
+        out["problems"] = o2["problems"]
+    _RECENT.append(case)
+    del _RECENT[:-8]
     out["sample"] = None
     if out["nontrivial"] and seed % 211 == 0:
         out["sample"] = {"seed": seed, "classes": [c["desc"][:60] for c in case["model"]["classes"]],
                          "methods": [[m["name"][:40] for m in c["dmethods"]] for c in case["model"]["classes"]],
-                         "env": case["env"], "faults": case["faults"], "events": [list(e[2:]) for e in log][:10],
+                         "env": case["env"], "faults": case["faults"], "earlier_exports": len(case["priors"]),
+                         "events": [list(e[2:]) for e in log][:10],
                          "verdict": [s for s, _ in out["problems"]] or "held"}
     out["case"] = case if out["problems"] else None
     return out
 
 
 def digest_for_index(base, i):
+    _RECENT.clear()
     out = worker(core.derive_seed(PROP, base, i))
     return out["digest"] + ":" + ",".join(sorted(s for s, _ in out["problems"]))
 
@@ -309,6 +461,16 @@ def minimise(case, sig):
             return False
 
     cur = case
+    while cur.get("priors") and tests[0] < 40:
+        dropped = False
+        for i in range(len(cur["priors"])):
+            c2 = dict(cur, priors=cur["priors"][:i] + cur["priors"][i + 1:])
+            if has(c2):
+                cur = c2
+                dropped = True
+                break
+        if not dropped:
+            break
     if cur["faults"] and has(dict(cur, faults=[])):
         cur = dict(cur, faults=[])
     env2 = dict(cur["env"], preexisting=False, pre_files=0, answers=[], form=None, filter=None)
@@ -395,11 +557,11 @@ def write_replay(case, sig, msg, info):
     if sig not in sigs:
         return None
     try:
-        escaped, rerr = real_run(case)
+        escaped, rerr = core.isolated(real_run, case)
     except Exception as e:
         escaped, rerr = [], "real-run-failed:" + type(e).__name__
     payload = {"property": PROP, "engine": "fssim", "seed": case["seed"], "config": case["env"], "model": case["model"],
-               "faults": case["faults"], "ops": [["export_apps_to_format", case["env"]["output"]]], "decisions": [],
+               "faults": case["faults"], "priors": case.get("priors") or [], "ops": [["export_apps_to_format", case["env"]["output"]]], "decisions": [],
                "violation": {"class": "escape", "signature": sig, "message": sigs[sig]},
                "digest": out["digest"], "trace": [list(e) for e in out["log"]][:200],
                "real_file_system": {"escaped_paths_relative_to_cwd": escaped, "command_error": rerr},
@@ -418,6 +580,7 @@ def run(tier):
 
 def replay(path):
     def rerun(rp):
-        out = execute({"seed": rp["seed"], "model": rp["model"], "env": rp["config"], "faults": rp["faults"]})
+        out = execute({"seed": rp["seed"], "model": rp["model"], "env": rp["config"], "faults": rp["faults"],
+                       "priors": rp.get("priors") or []}, isolated=False)
         return {s for s, _ in out["problems"]}, out["digest"], [f"{s}: {m}" for s, m in out["problems"]]
     return driver.replay_common(__import__("checks.c37", fromlist=["x"]), path, rerun)
